@@ -124,9 +124,10 @@ def run_all(mos, jobs, tag):
 
     def one(job):
         cid, prj = job
-        text, lines = D.render(prj)
-        obs, runs, raw = D.run_project(mos, os.path.join(base, "w%d" % (cid % 64), "p%d" % cid), text)
-        return cid, V.clip_tree(D.record(cid, prj, lines, obs, runs)), text, raw
+        text, lines, extra = D.render(prj)
+        obs, runs, raw = D.run_project(mos, os.path.join(base, "w%d" % (cid % 64), "p%d" % cid), text, extra=extra)
+        shown = text + "".join("; ---- %s\n%s" % (n, t) for n, t in extra.items())
+        return cid, V.clip_tree(D.record(cid, prj, lines, obs, runs)), shown, raw
     recs, texts, raws = [], {}, {}
     with concurrent.futures.ThreadPoolExecutor(max_workers=4) as ex:
         for cid, rec, text, raw in ex.map(one, jobs):
@@ -228,7 +229,8 @@ def main(tier):
                        "forward skips, subroutines inside/outside the test, scopes, .loop/index, 1-3 tests, two overlapping banks, php/pla, pha/plp, rti, jmp (ind) through data and page-edge RAM vectors, decimal-flag adds, delay loops of up to thousands of instructions; "
                        "distinct_nontrivial = distinct project texts having a test with a decided (passed/failed) Ideal verdict reached after >= 3 path states")
     rep.cov["decimal_mirror_traces"] = sum(1 for x in stats if x["dev"] == "mirror")
-    rep.cov["crashes_observed"] = {k: sum(1 for r in recs if r["obs"]["panic"] == k) for k in ("slice", "overflow", "other")}
+    rep.cov["crashes_observed"] = {k: sum(1 for r in recs if r["obs"]["panic"] == k) for k in ("overflow", "slice", "other")}
+    rep.cov["projects_with_imported_tests"] = sum(1 for r in recs if r["prj"].get("files"))
     rep.cov["longest_run_instructions"] = max([len(x["steps"]) for r in recs for x in r["runs"]] or [0])
     rep.cov["ideal_verdicts"] = {k: sum(1 for x in stats if x["dev"] == k) for k in ("passed", "failed", "unspec", "nolayout")}
     rep.cov["hook_traces"] = ntrace
